@@ -17,7 +17,7 @@ func init() {
 		ID: "ITER-1",
 		Doc: "no removal of the current element from the list being iterated: a loop that reads elements x[i] (i loop-varying) of a slice loaded from a struct field (Node.In, Node.Out, DGraph.Edges, ...) must not, inside the loop body, make a call whose effect summary contains RemoveElem(same field, that element); " +
 			"list effects are derived from (*EdgeList).Remove/Add recognised by shape and composed through call sites (so Edge.Reverse counts)",
-		Floor: 20,
+		Floor: 90,
 		Ctl:   []string{"internal__phase1__iter1.go.txt"},
 		Run:   runIter1,
 	})
@@ -29,9 +29,9 @@ func init() {
 		Run:   runShift1,
 	})
 	register(&Rule{
-		ID: "AGG-1",
-		Doc: "no consumption of a traversal-wide running extremum inside the traversal: in a function that updates *p = max/min(*p, v) through a pointer parameter or captured variable and is recursive or called from a loop, no other load of *p may flow into a store to a struct field or map cell",
-		Floor: 0,
+		ID:    "AGG-1",
+		Doc:   "no consumption of a traversal-wide running extremum inside the traversal: in a function that updates *p = max/min(*p, v) through a pointer parameter or captured variable and is recursive or called from a loop, no other load of *p may flow into a store to a struct field or map cell",
+		Floor: 1,
 		Ctl:   []string{"internal__phase2__agg1.go.txt"},
 		Run:   runAgg1,
 	})
